@@ -68,3 +68,20 @@ package cli
 //@   ensures offset <= 0 && len(str) > 0 ==> line == 1
 //@   ensures offset > len(str) ==> line == nlines(str)
 //@   ensures len(linestr) <= 64 && 0 <= column
+
+// ---------------------------------------------------------------------------------------
+// C17: the window of input shown for a JSON error (cli/inputs.go)
+// ---------------------------------------------------------------------------------------
+
+//@ invariant-of (ir *inputReader) ir.buf != nil || ir.rs != nil
+
+// Skip loop of getContents: the reported offset stays inside (and at least 4 KiB into) what is
+// read next, so the offending byte is part of the returned contents.
+//@ func (ir *inputReader) getContents(offset *int64, line *int) (s string)
+//@   property C17
+//@   requires offset != nil ==> line != nil && offset != line
+//@   modifies cell(offset), cell(line)
+//@   loop 1 invariant offset != nil ==> deref(offset) <= old(deref(offset)) && (old(deref(offset)) >= 1 ==> deref(offset) >= 1)
+//@   loop 1 invariant offset != nil && old(deref(offset)) > 12288 ==> deref(offset) >= 4096
+//@   ensures offset != nil && ir.buf == nil && old(deref(offset)) >= 1 ==> deref(offset) >= 1 && deref(offset) <= old(deref(offset))
+//@   ensures offset != nil && ir.buf == nil && old(deref(offset)) > 12288 ==> deref(offset) >= 4096
